@@ -70,7 +70,8 @@ xvars == <<par, salt, ev, tab, full, hist, n, ma, objs, exp0, lg, tb>>
 
 Obj(evf, tb_, fl, x, fr, s) == [ev |-> evf, tab |-> tb_, full |-> fl, exp |-> x,
                                 fresh |-> fr,     \* made by the constructor / a log / copy(): certainly a distinct Python object
-                                src |-> s]        \* copy(): the object it was copied from (0 otherwise)
+                                src |-> s,        \* copy(): the object it was copied from (0 otherwise)
+                                twin |-> FALSE]   \* made by a filter that removed no evaluation: possibly the receiver itself
 ObjOut(o) == [ev |-> EvSet(o.ev), tmin |-> Ref(o.ev), tmax |-> o.tab, full |-> o.full, exp |-> o.exp]
 NoOut == [kind |-> "none"]
 Recv == IF RecvAll THEN 1..Len(objs) ELSE {Len(objs)}
@@ -106,10 +107,10 @@ SatRow(cond, id) == \E j \in DOMAIN cond : SatV(cond[j], PVal(cond[j][2], id))
 FPar(R, cond) ==
   LET k == KindOf(cond[1][2])
       keep == {id \in R.tab[k] : SatRow(cond, id)}
-  IN IF keep = R.tab[k] THEN [R EXCEPT !.fresh = FALSE, !.src = 0]
+  IN IF keep = R.tab[k] THEN [R EXCEPT !.fresh = FALSE, !.src = 0, !.twin = TRUE]
      ELSE LET a == Restrict(R.ev, {t \in DOMAIN R.ev : t[k] \in keep})
               up == [j \in 1..3 |-> IF j = k THEN keep ELSE R.tab[j]]
-          IN Obj(a, IF R.full THEN Ref(a) ELSE up, R.full, R.exp, FALSE, 0)
+          IN [Obj(a, IF R.full THEN Ref(a) ELSE up, R.full, R.exp, FALSE, 0) EXCEPT !.twin = (a = R.ev)]
 
 (* filter_int / where(<interaction column>) (1196-1224): exactly the interaction rows that satisfy *)
 (* the atom; parameter rows that lose every interaction row leave their tables (a303457).          *)
@@ -126,7 +127,7 @@ FIntTab(R, a, evf) ==
 FInt(R, a) ==
   LET kept == FIntKept(R, a)
       evf == [t \in kept |-> Cardinality(KeptIdx(R, a, t))]
-  IN IF \A t \in DOMAIN R.ev : KeptIdx(R, a, t) = 1..R.ev[t] THEN [R EXCEPT !.fresh = FALSE, !.src = 0]
+  IN IF \A t \in DOMAIN R.ev : KeptIdx(R, a, t) = 1..R.ev[t] THEN [R EXCEPT !.fresh = FALSE, !.src = 0, !.twin = TRUE]
      ELSE Obj(evf, FIntTab(R, a, evf), R.full, R.exp, FALSE, 0)
 
 (* ------------------------------------------------------------ where_best *)
@@ -144,10 +145,13 @@ BestAltsX(evf, lc, pc0, nb, fin) ==
       evs(c, d) == {u \in S1 : cellof(u) = c /\ u[2] = d}
       cands(c) == {u[2] : u \in {w \in S1 : cellof(w) = c}}
       best(c) == {d \in cands(c) : \A d2 \in cands(c) : ~RLess(Score(evf, evs(c, d), nb), Score(evf, evs(c, d2), nb))}
-      choices == {f \in [cells -> {t[2] : t \in S1}] : \A c \in cells : f[c] \in best(c)}
+      RECURSIVE Choices(_)
+      Choices(C) == IF C = {} THEN {{}} ELSE
+                    LET c == CHOOSE z \in C : TRUE
+                    IN UNION {{rest \cup {<<c, d>>} : d \in best(c)} : rest \in Choices(C \ {c})}
   IN IF Variant = "best_all_ties"
      THEN {Restrict(evf, {t \in S1 : t[2] \in best(cellof(t))})}
-     ELSE {Restrict(evf, {t \in S1 : t[2] = f[cellof(t)]}) : f \in choices}
+     ELSE {Restrict(evf, {t \in S1 : <<cellof(t), t[2]>> \in f}) : f \in Choices(cells)}
 
 (* ---------------------------------------------------------- raw_contrast *)
 (* raw_contrast(l1, l2, x, y, l, p, span) (1370-1451): "contrast l1 and l2 in terms of y"; p = "the *)
@@ -202,14 +206,22 @@ RSub(a, b) == <<a[1]*b[2] - b[1]*a[2], a[2]*b[2]>>
 Wtl(es) == <<Cardinality({e \in es : RLess(e.y1, e.y2)}),
              Cardinality({e \in es : ~RLess(e.y1, e.y2) /\ ~RLess(e.y2, e.y1)}),
              Cardinality({e \in es : RLess(e.y2, e.y1)})>>
-CtrOut(evf, c) ==
-  IF CtrRefuses(evf, c) THEN [kind |-> "raise", rows |-> <<>>, wtl |-> <<0, 0, 0>>]
-  ELSE LET es == CtrEntries(evf, c[1], c[2], c[3], c[4], c[5], c[6])
-           labs == SortLabs({e.lab : e \in es})
+CtrOutOf(es) ==
+  IF es = {} THEN [kind |-> "raise", rows |-> <<>>, wtl |-> <<0, 0, 0>>]
+  ELSE LET labs == SortLabs({e.lab : e \in es})
        IN [kind |-> "rows",
            rows |-> [k \in DOMAIN labs |-> [lab |-> labs[k],
                                             pairs |-> {<<e.t1, e.t2, e.y1, e.y2, RSub(e.y2, e.y1)>> : e \in {f \in es : f.lab = labs[k]}}]],
            wtl |-> Wtl(es)]
+CtrOut(evf, c) == IF CtrRefuses(evf, c) THEN CtrOutOf({}) ELSE CtrOutOf(CtrEntries(evf, c[1], c[2], c[3], c[4], c[5], c[6]))
+(* [defined, out] with the entries computed once *)
+CtrEval(evf, c) ==
+  IF BadCol(c) \/ c[1] \cap c[2] # {} \/ DOMAIN evf = {} THEN [defined |-> TRUE, out |-> CtrOutOf({})] ELSE
+  LET es == CtrEntries(evf, c[1], c[2], c[3], c[4], c[5], c[6])
+      ok == /\ \A L \in c[1] \cup c[2] : \A t, u \in LevEv(evf, c[4], {L}) : t # u => CKey(t, c[3], c[5]) # CKey(u, c[3], c[5])
+            /\ IsIdx(c[3]) => (Cardinality(c[1]) = 1 /\ Cardinality(c[2]) = 1)
+            /\ \A e1, e2 \in es : (e1.lab[2] = <<>>) = (e2.lab[2] = <<>>)
+  IN [defined |-> ok, out |-> IF ok THEN CtrOutOf(es) ELSE CtrOutOf({})]
 
 (* ------------------------------------------------------------- equality *)
 (* r1 == r2 (1745-1749, Table.__eq__ 406-407): two Results are equal iff their four tables hold the *)
@@ -239,12 +251,13 @@ XInitHist ==
 
 XCopy == /\ "copy" \in XOps
           /\ \E s \in Recv : Added("copy", s, <<>>, NoOut, [objs[s] EXCEPT !.fresh = TRUE, !.src = s])
-(* obj.experiment = x re-binds the attribute of ONE object.  Only objects that are certainly distinct Python objects are       *)
-(* assigned to: a filter that removes nothing returns the receiver itself (test_filter_env_no_change), which is no copy.       *)
+(* obj.experiment = x re-binds the attribute of ONE object.  A filter that removes nothing returns the receiver itself         *)
+(* (test_filter_env_no_change) - no copy, two names of one object; so that nothing is said about such pairs the attribute is   *)
+(* re-bound only on objects made by the constructor / a log / copy() and only while the workspace holds no possible twin.      *)
 Alias(i, s) == Variant = "copy_shared" /\ (objs[i].src = s \/ objs[s].src = i)
 XSetExp == /\ "setexp" \in XOps
             /\ \E s \in Recv : \E x \in SetExps :
-                 /\ objs[s].fresh /\ objs[s].exp # x
+                 /\ objs[s].fresh /\ objs[s].exp # x /\ \A i \in DOMAIN objs : ~objs[i].twin
                  /\ objs' = [i \in DOMAIN objs |-> IF i = s \/ Alias(i, s) THEN [objs[i] EXCEPT !.exp = x] ELSE objs[i]]
                  /\ hist' = Append(hist, XStep("setexp", s, <<x>>, NoOut, <<>>, objs'))
 (* a log that holds what objs[1] was built from, read back: the same four tables and the same experiment dict *)
@@ -268,14 +281,17 @@ XBest == /\ "best" \in XOps
                           Obj(a, IF R.full THEN Ref(a) ELSE R.tab, R.full, R.exp, FALSE, 0))
 XContrast == /\ "contrast" \in XOps
               /\ \E s \in Recv : \E c \in CtrArgs :
-                   /\ CtrDefined(objs[s].ev, c)
-                   /\ Observed("contrast", s, c, CtrOut(objs[s].ev, c))
+                   LET r == CtrEval(objs[s].ev, c)
+                   IN r.defined /\ Observed("contrast", s, c, r.out)
 XEq == /\ "eq" \in XOps
         /\ \E i, j \in DOMAIN objs :
              /\ i < j /\ EqDefined(objs[i], objs[j])
              /\ Observed("eq", i, <<j>>, [kind |-> "bool", val |-> SameTables(objs[i], objs[j])])
+(* "design" \in XOps: no call is made; the design facts below are evaluated on the Result, in the successor state (one per worker) *)
+XDesign == "design" \in XOps /\ n = 0 /\ UNCHANGED <<objs, hist>>
+DesignNow == XMode = "hist" /\ "design" \in XOps /\ n = 1
 XNextHist == /\ n < MaxOps /\ n' = n + 1
-             /\ (XCopy \/ XSetExp \/ XLoad \/ XFPar \/ XFInt \/ XBest \/ XContrast \/ XEq)
+             /\ (XDesign \/ XCopy \/ XSetExp \/ XLoad \/ XFPar \/ XFInt \/ XBest \/ XContrast \/ XEq)
              /\ UNCHANGED <<par, salt, ev, tab, full, ma, exp0, lg, tb>>
 
 (* ------------------------------------------------------ from_logged_envs *)
@@ -350,7 +366,7 @@ XNext == \/ (XMode = "hist" /\ XNextHist)
          \/ (XMode # "hist" /\ n = 0 /\ n' = 1 /\ UNCHANGED <<par, salt, ev, tab, full, hist, ma, objs, exp0, lg, tb>>)
 XSpec == XInit /\ [][XNext]_xvars
 
-XEmit == /\ (XMode = "hist" /\ n = MaxOps) => PrintT(ToJson(hist))
+XEmit == /\ (XMode = "hist" /\ n = MaxOps /\ Len(hist) > 1) => PrintT(ToJson(hist))
          /\ (XMode = "logged" /\ n = 1) => PrintT(ToJson([lg |-> lg, out |-> LgOut(lg.envs)]))
          /\ (XMode = "table" /\ n = 1) => PrintT(ToJson([tb |-> tb, out |-> TbOut(tb)]))
 
@@ -369,7 +385,7 @@ CopyEqual == XMode = "hist" => \A k \in DOMAIN hist :
    /\ hist[k].op = "copy" => SameTables(objs[NObjs(k)], objs[hist[k].recv])
    /\ hist[k].op = "load" => (SameTables(objs[NObjs(k)], objs[1]) /\ objs[NObjs(k)].ev = ev /\ objs[NObjs(k)].tab = tab)
 (* filters on different tables commute; a parameter filter and an interaction filter commute row by row *)
-FilterCommute == (XMode = "hist" /\ n = 0) =>
+FilterCommute == DesignNow =>
   LET R == objs[1] IN
   /\ \A c1 \in EnvConds : \A c2 \in LrnConds \cup ValConds :
        LET a == FPar(FPar(R, c1), c2)  b == FPar(FPar(R, c2), c1) IN a.ev = b.ev /\ a.exp = b.exp /\ (R.full => a.tab = b.tab)
@@ -381,7 +397,7 @@ FilterCommute == (XMode = "hist" /\ n = 0) =>
                                 /\ (R.full => FPar(FInt(R, ci), c1).tab = FInt(FPar(R, c1), ci).tab))
   /\ \A c \in EnvConds \cup LrnConds \cup ValConds : FPar(FPar(R, c), c).ev = FPar(R, c).ev          \* idempotent
 (* where_best: one learner per (p, l) cell, a maximum, with all its evaluations there; selecting again selects the same *)
-BestDesign == (XMode = "hist" /\ n = 0) =>
+BestDesign == DesignNow =>
   \A b \in BestXArgs :
     LET evf == objs[1].ev
         pc == IF b[2] = <<>> THEN <<"environment_id">> ELSE b[2]
@@ -402,7 +418,7 @@ BestDesign == (XMode = "hist" /\ n = 0) =>
 (* raw_contrast is antisymmetric: swapping l1 and l2 swaps every pair (and "x2-x1" becomes "x1-x2"), so every difference changes *)
 (* sign and wins become losses; and only complete pairs are reported                                                              *)
 SwapLab(l) == IF l[2] = <<>> THEN l ELSE <<l[2], l[1]>>
-ContrastDesign == (XMode = "hist" /\ n = 0) =>
+ContrastDesign == DesignNow =>
   \A c \in CtrArgs :
     LET evf == objs[1].ev
         cr == <<c[2], c[1], c[3], c[4], c[5], c[6]>>
